@@ -26,6 +26,12 @@ class SymKeyDict(dict):
 
     def __getitem__(self, k):
         if isinstance(k, SymInt):
+            # the values are message texts: if the key is certainly one of the keys no fork is
+            # needed, the text is a placeholder; otherwise fork over the keys (KeyError possible)
+            p = core._path()
+            member = Or(*[k == kk for kk in dict.keys(self)])
+            if p.sat(Not(member))[0] == 'unsat':
+                return '<description of status/state %s>' % (k,)
             for kk in dict.keys(self):
                 if k == kk:
                     return dict.__getitem__(self, kk)
@@ -428,7 +434,7 @@ def replay_concrete(values, L, variant, K, inject_mode, sched='one'):
         run_once(cp, L, variant, K, inject_mode, None, sched)
         out = 'ok'
     except SystemExit as e:
-        out = 'ok' if e.code in (None, 0) else 'exit:%s' % (str(e.code)[:40],)
+        out = 'ok' if e.code in (None, 0) else 'exit:%s' % (str(e.code)[:18],)
     except Exception as e:
         out = 'exc:' + type(e).__name__
     dev = cp.notes['dev']
@@ -457,7 +463,7 @@ def dfu_task(prop, L, variant, K, inject_mode, sched='one'):
         values = {k: core.concrete(v, model) for k, v in x.inputs.items()}
         rp = replay_concrete(values, L, variant, K, inject_mode, sched)
         if rp is not None:
-            symo = 'ok' if exit_ok else ('exit:%s' % (str(val.code)[:40],) if isinstance(val, SystemExit) else 'exc:' + type(val).__name__)
+            symo = 'ok' if exit_ok else ('exit:%s' % (str(val.code)[:18],) if isinstance(val, SystemExit) else 'exc:' + type(val).__name__)
             if (symo, done, [r[:2] for r in dev.requests], dev.flash, list(dev.monitors)) != rp:
                 res.inconc('%s: witness replay mismatch: %r vs %r' % (tag, (symo, done, len(dev.requests)), (rp[0], rp[1], len(rp[2]))))
                 continue
